@@ -911,6 +911,7 @@ class MaterialIndexer(Indexer):
                         self_index = chemicals.indices([CASs[i] for i in other_index])
                         data[get_phase_index(phase), self_index] -= idata[other_index]
         elif isa(other, ChemicalIndexer):
+            if not idata.any(): return # Nothing to separate out (phase may not even be present)
             if chemicals is other.chemicals:
                 data[get_phase_index(other.phase), :] -= idata
             else:
